@@ -215,7 +215,11 @@ pub fn generate(seed: u64, tier: &str, sink: &mut Sink) {
     for st in 0..1000u32 {
         let code = format!("{:03}", st);
         let wire = format!("HTTP/1.1 {} R\r\nX-A: b\r\n\r\n", code).into_bytes();
-        let case = RespCase { method: "GET".into(), max_headers: 100, segs: vec![crate::script::Seg::Data(wire)], reads: Reads::Sizes(vec![]) };
+        // every fourth code answers a POST / PUT that carried content (the resp op attaches content to those two
+        // methods when the response comes in one segment): the status reported is the status sent, whatever the
+        // request was — interim codes included (seed C04-seed9)
+        let method = match st % 4 { 0 => "POST", 1 => "PUT", _ => "GET" };
+        let case = RespCase { method: method.into(), max_headers: 100, segs: vec![crate::script::Seg::Data(wire)], reads: Reads::Sizes(vec![]) };
         let out = run_resp(&case);
         let o = match (&out.head, st >= 100) {
             (HeadOut::Ok(s), true) if *s as u32 == st => Ok(()),
